@@ -701,7 +701,7 @@ def _c17_isolation_chunk(arg):
         for _ in range(rng.randint(1, 5)):
             nodes = [d for d in sa.descendants if isinstance(d, TexNode)]
             op = rng.choice(['delete', 'rename', 'append', 'args', 'parse-b', 'parse-a', 'parse-skip',
-                             'edit-arg'])
+                             'edit-arg', 'edit-text'])
             ops.append(op)
             try:
                 if op == 'delete' and nodes:
@@ -729,6 +729,12 @@ def _c17_isolation_chunk(arg):
                             n.args[0].string = 'EDITED'
                         except BaseException:  # noqa
                             pass
+                elif op == 'edit-text':
+                    # assigning .text is the documented way to edit a text piece
+                    for e in _all_objs(sa.expr):
+                        t = e._text if isinstance(e, D.TexText) else e
+                        if isinstance(t, Token) and rng.random() < 0.5:
+                            t.text = 'EDITED-TEXT'
                 elif op == 'parse-b':
                     if _obs(impl.parse(b)) != refb:
                         r.fail(Failure('C17', 'earlier-parse-or-edit-influences-parse',
@@ -774,6 +780,10 @@ def _all_objs(e):
         if isinstance(c, D.TexExpr) and not isinstance(c, D.TexText):
             out.extend(_all_objs(c))
         elif isinstance(c, D.TexText):
+            out.append(c)
+            if isinstance(c._text, Token):
+                out.append(c._text)       # tokens carry assignable attributes
+        elif isinstance(c, Token):
             out.append(c)
     return out
 
@@ -867,7 +877,12 @@ def oracle_C17(tier):
     special = ['\\textbf a and \\textbf{a}', '\\label x \\label x', '\\section a\\section a',
                '\\def\\foo{x} \\textbf\\foo', '\\textbf a', '$\\textbf x \\in [0,1)$',
                '\\begin{foobar} \\textbf{x} $y$ \\end{foobar} tail',
-               '\\begin{zz}\\x{a}\\end{zz}\\begin{a}\\begin{zz}${\\end{zz}\\end{a}']
+               '\\begin{zz}\\x{a}\\end{zz}\\begin{a}\\begin{zz}${\\end{zz}\\end{a}',
+               # empty raw bodies, empty groups and empty math: whatever stands
+               # for "nothing" in a tree must be that tree's own object
+               'a\\begin{verbatim}\\end{verbatim}b', '\\begin{lstlisting}\\end{lstlisting} and \\begin{verbatim} y \\end{verbatim}',
+               '\\x{}[]{} $$ \\begin{a}\\end{a}', '\\begin{equation}\\item x\\end{equation}',
+               '\\begin{itemize}\\item u\\end{itemize}\\begin{equation}x\\end{equation}']
     docs = special + docs
     pairs = [(docs[i], docs[(i * 7 + 3) % len(docs)]) for i in range(0, min(len(docs), n * 2))]
     pairs += [(a, b) for a in special for b in special]
